@@ -28,7 +28,11 @@ ASSUMPTIONS = [
     "way) x all insertion orders x all orientations; arbitrary labellings/names of 7-8 node trees are "
     "sampled by trees_labelled_random, not enumerated (1.7e11 histories for n = 8)",
     "graphs: a link may be inserted twice (beyond's own create_station does so), which must change nothing",
-    "registrations: stations on ITRF/TIRF/PEF (coordinates given as a tuple or as one float ndarray object "
+    "registrations: the probe date carries a drawn time-scale label; half of the probe conversions hold the state "
+    "in spherical form and name the frames by their objects; conversion results are held across registrations "
+    "(and cloned by copy()/copy/deepcopy/pickle) and must convert like fresh ones; alias frames share the "
+    "orientation object of one frame and the centre of another; names and objects are compared for "
+    "StateVector.copy, Center.convert_to, Orientation.convert_to; stations on ITRF/TIRF/PEF (coordinates given as a tuple or as one float ndarray object "
     "re-used - unchanged or rewritten in place - for later stations), orbit frames (None/QSW/TNW) on Kepler orbits given in "
     "EME2000/GCRF/MOD, frames attached (orbit2frame / as_frame, None/QSW/TNW) to state vectors or Kepler orbits "
     "EXPRESSED IN a frame generated earlier in the history (stations by preference; chains of depth 2-3), "
@@ -579,7 +583,7 @@ def reg_case(draw, shard, tier):
     d = D(draw)
     ops = []
     for _ in range(d.int(2, 12)):
-        kind = d.pick("station", "station", "orbit", "orbit", "attached", "attached", "attached", "body")
+        kind = d.pick("station", "station", "orbit", "orbit", "attached", "attached", "attached", "body", "alias")
         if kind == "station":
             # how the 'user' hands the coordinates over: a fresh tuple, or one float ndarray object that is
             # re-used for later stations - unchanged, or rewritten in place with the new coordinates
@@ -599,9 +603,13 @@ def reg_case(draw, shard, tier):
                             parent=d.pick("EME2000", "TOD"),
                             rel=[d.signed(1e3, 1e6) for _ in range(3)] + [d.signed(1.0, 3e3) for _ in range(3)],
                             point=[d.signed(1.0, 1e5) for _ in range(3)] + [d.signed(1e-2, 1e2) for _ in range(3)]))
+        elif kind == "alias":
+            # a frame under a new name that SHARES its orientation object with one frame and its centre with another
+            ops.append(dict(op="alias", orient_of=d.int(0, 999), center_of=d.int(0, 999)))
         else:
             ops.append(dict(op="body", name=d.pick("Moon", "Sun")))
-    return dict(ops=ops, sv=[d.u(-1.0, 1.0) * 7e6 for _ in range(3)] + [d.u(-1.0, 1.0) * 6e3 for _ in range(3)],
+    return dict(label=d.pick("UTC", "UTC", "TAI", "TT", "GPS", "UT1"), hold=d.pick("none", "copy()", "pickle", "deepcopy", "copy.copy"),
+                ops=ops, sv=[d.u(-1.0, 1.0) * 7e6 for _ in range(3)] + [d.u(-1.0, 1.0) * 6e3 for _ in range(3)],
                 day=d.int(53000, 58000), sec=d.int(0, 86399), picks=[d.int(0, 10**6) for _ in range(40)])
 
 
@@ -640,14 +648,69 @@ def check_registrations(case):
     from ..oracles import twobody as tb
 
     date = Date(case["day"], float(case["sec"]))
+    if case.get("label", "UTC") != "UTC":
+        date = date.change_scale(case["label"])       # same instant under another time-scale label
     sv0 = StateVector(case["sv"], date, "cartesian", "EME2000")
     known = list(BUILTIN) + sorted(_proc["bodies"])
     picks = iter(case["picks"] * 50)
     table = {}
 
     def conv(src, dst):
+        """Probe state EME2000 -> src -> dst.  For every other pair the probe is HELD in spherical form, and
+        the frames are named by their objects instead of their names."""
+        alt = (len(src) + len(dst)) % 2 == 1
+        if alt:
+            a = sv0.copy(frame=frames.get_frame(src), form="spherical")
+            return arr(a.copy(frame=frames.get_frame(dst))), arr(a)
         a = sv0.copy(frame=src)
-        return np.asarray(a.copy(frame=dst).base, float), np.asarray(a.base, float)
+        return arr(a.copy(frame=dst)), arr(a)
+
+    def arr(sv):
+        return np.array(sv.view(np.ndarray), dtype=float)
+
+    def cloned(sv, how):
+        import copy
+        import pickle
+
+        return {"none": lambda x: x, "copy()": lambda x: x.copy(), "pickle": lambda x: pickle.loads(pickle.dumps(x)),
+                "deepcopy": copy.deepcopy, "copy.copy": copy.copy}[how](sv)
+
+    held = []           # (state vector kept by the 'user', name of its frame, its numbers when it was made)
+
+    def held_intact(what):
+        """Conversion results held across registrations are untouched, still usable (also once cloned) and
+        convert exactly like a fresh conversion of the probe."""
+        for obj, fname, saved in held:
+            if not np.array_equal(arr(obj), saved):
+                raise Violation("held-result-changed", f"{what}: a state vector held in '{fname}' since before changed "
+                                f"from {saved.tolist()} to {arr(obj).tolist()}")
+            if obj.frame.name != fname or frames.get_frame(fname) is not obj.frame:
+                raise Violation("held-result-frame", f"{what}: the held state vector is now in {obj.frame!r}")
+            for tgt in ("EME2000", known[-1]):
+                now = arr(cloned(obj, case.get("hold", "none")).copy(frame=tgt))
+                fresh = arr(sv0.copy(frame=fname).copy(frame=tgt))
+                if not np.array_equal(now, fresh):
+                    raise Violation("held-result-differs", f"{what}: a state vector held in '{fname}' (clone: "
+                                    f"{case.get('hold', 'none')}) converts to '{tgt}' as {now.tolist()}, a fresh conversion "
+                                    f"of the same probe gives {fresh.tolist()}")
+
+    def spellings_agree(what, name):
+        """Name or object, for every API that takes a frame / centre / orientation."""
+        fr_ = frames.get_frame(name)
+        for other in ("EME2000", "ITRF", known[next(picks) % len(known)]):
+            fo = frames.get_frame(other)
+            by_name = arr(sv0.copy(frame=other).copy(frame=name))
+            by_obj = arr(sv0.copy(frame=fo).copy(frame=fr_))
+            if not np.array_equal(by_name, by_obj):
+                raise Violation("name-vs-object", f"{what}: {other} -> {name} gives {by_name.tolist()} with names and "
+                                f"{by_obj.tolist()} with Frame objects")
+            c1 = np.asarray(fr_.center.convert_to(date, fo.center, fo.orientation), float)
+            c2 = np.asarray(fr_.center.convert_to(date, fo.center.name, fo.orientation), float)
+            o1 = np.asarray(fr_.orientation.convert_to(date, fo.orientation), float)
+            o2 = np.asarray(fr_.orientation.convert_to(date, fo.orientation.name), float)
+            if not (np.array_equal(c1, c2) and np.array_equal(o1, o2)):
+                raise Violation("name-vs-object", f"{what}: Center.convert_to / Orientation.convert_to from '{name}' to "
+                                f"'{other}' differ between the name and the object of the target")
 
     def record(k):
         for _ in range(k):
@@ -686,12 +749,12 @@ def check_registrations(case):
 
     def after_conversion(what):
         """After every single conversion: every stored offset, and the recorded conversions that touch a
-        generated frame (the latest 3; the whole table is compared after every
+        generated frame (the latest 2; the whole table is compared after every
         registration and at the end - 30 x 2 conversions after each of ~250 conversions was 5 min a case)."""
         nconv[0] += 1
         offsets_intact(what)
         gen = {g[0] for g in generated}
-        hot = [k for k in table if k[0] in gen or k[1] in gen][-3:]
+        hot = [k for k in table if k[0] in gen or k[1] in gen][-2:]
         table_intact(what, hot)
 
     record(6)
@@ -759,6 +822,11 @@ def check_registrations(case):
             fr = ref.as_frame(name, **kw) if op["ref"] == "sv_as_frame" else orbit2frame_call(
                 name, ref, op["orientation"], frames.get_frame(op["parent"]))
             depth[name] = depth.get(base, 0) + 1
+        elif op["op"] == "alias":
+            fo = frames.get_frame(known[op["orient_of"] % len(known)])
+            fc = frames.get_frame(known[op["center_of"] % len(known)])
+            fr = frames.Frame(name, fo.orientation, fc.center)
+            depth[name] = depth.get(fc.name, 0)
         else:
             if op["name"] in _proc["bodies"]:
                 continue  # a second call would re-register an existing name
@@ -785,10 +853,14 @@ def check_registrations(case):
             if not np.array_equal(now, before):
                 raise Violation("pre-existing-changed", f"{what}: {src} -> {dst} of the same state changed from "
                                 f"{before.tolist()} to {now.tolist()}", src=src, dst=dst)
+        known.append(name)
+        held_intact(what)
+        spellings_agree(what, name)
+        known.pop()
         # 2b. a point given in the new frame goes into every orientation family - Earth-fixed, inertial,
         #     the frame it hangs off and the other generated frames - and after EVERY single conversion
         #     the pre-existing conversions and the stored offsets are still what they were
-        if op["op"] in ("attached", "station", "orbit"):
+        if op["op"] in ("attached", "station", "orbit", "alias"):
             pt = StateVector(op.get("point", [1000.0, -2000.0, 500.0, 1.0, 2.0, -3.0]), date, "cartesian", name)
             targets = ["WGS84" if step % 3 == 2 else "ITRF", "PEF", "TIRF", "EME2000"]
             targets.append(generated[-2][0] if len(generated) > 1 and step % 2 else "TOD")
@@ -798,7 +870,8 @@ def check_registrations(case):
                 out = pt.copy(frame=tgt)
                 after_conversion(f"{what}, then converting a point from '{name}' to '{tgt}'")
                 back = np.asarray(out.copy(frame=name).base, float)
-                after_conversion(f"{what}, then converting a point from '{tgt}' to '{name}'")
+                nconv[0] += 1
+                offsets_intact(f"{what}, then converting a point from '{tgt}' to '{name}'")
                 mid = np.asarray(out.base, float)
                 if not (np.all(np.isfinite(mid)) and np.all(np.isfinite(back))):
                     raise Violation("non-finite", f"{what}: '{name}' -> '{tgt}' gives {mid.tolist()}")
@@ -813,7 +886,8 @@ def check_registrations(case):
         # 3. the new frame converts to and from old ones consistently
         for _ in range(4):
             old = known[next(picks) % len(known)]
-            there, start = conv(old, name)
+            start_sv = sv0.copy(frame=old)
+            there, start = arr(start_sv.copy(frame=name)), arr(start_sv)
             back = np.asarray(StateVector(there, date, "cartesian", name).copy(frame=old).base, float)
             via = np.asarray(sv0.copy(frame=name).base, float)
             if not (np.all(np.isfinite(there)) and np.all(np.isfinite(back))):
@@ -839,13 +913,18 @@ def check_registrations(case):
                     table.setdefault((other, g[0]), conv(other, g[0])[0])
         record(2)
         probes = {k: conv(*k)[0] for k in probe_keys()}
+        h_ = sv0.copy(frame=name if step % 2 else known[next(picks) % len(known)])
+        held.append((h_, h_.frame.name, arr(h_)))
+        del held[:-3]
+    if len(known) > len(BUILTIN):
+        held_intact("at the end of the history")
     offsets_intact("at the end of the history")
     table_intact("at the end of the history")
     if user.get("modified"):
         raise Violation("argument-modified", user["modified"])
     dmax = max(depth.values(), default=0)
     return dict(nt=nreg >= 1, cls=[f"regs:{min(nreg, 12) // 4 * 4}+", f"depth:{min(dmax, 3)}"]
-                + (["shared-array"] if user["uses"] > 1 else [])
+                + (["shared-array"] if user["uses"] > 1 else []) + ["date:" + case.get("label", "UTC"), "hold:" + case.get("hold", "none")]
                 + sorted({op["op"] for op in case["ops"]}), ratio=worst)
 
 
@@ -873,6 +952,6 @@ FACETS = [
     Facet("graphs", graph_case, check_graph_case, setup=_setup,
           rule=">= 4 nodes", quick=(8, 500), thorough=(16, 5000)),
     Facet("registrations", reg_case, check_registrations, setup=_setup,
-          rule="at least one registration between two conversions", quick=(16, 5), thorough=(32, 12),
+          rule="at least one registration between two conversions", quick=(16, 4), thorough=(32, 12),
           shrink_quick=False, case_timeout=300),
 ]
